@@ -424,8 +424,27 @@ type c18Text string
 
 // c18TypedValues: Go values that are NOT documents (their kinds resemble string / []byte): each must be stored as the YAML
 // library marshals it with the fixed encoder options (snaps/matchYAML.go: Indent(2), IndentSequence(true)).
+type c18User struct {
+	Name string
+	Tags map[string]string
+}
+
+type c18Deploy struct {
+	Labels   map[string]string
+	Selector map[string]string
+	Default  *c18User
+	Current  *c18User
+	Owners   []*c18User
+}
+
 func c18TypedValues() []any {
+	// values in which one map / one pointer is reachable along two paths (labels reused as the selector, the same user
+	// twice): shared, not cyclic
+	labels := map[string]string{"app": "web", "tier": "front"}
+	u := &c18User{Name: "ann", Tags: labels}
 	return []any{
+		c18Deploy{Labels: labels, Selector: labels, Default: u, Current: u, Owners: []*c18User{u, u}},
+		map[string]any{"a": labels, "b": labels}, []*c18User{u, u},
 		[]c18Severity{1, 2, 3}, []c18Severity{}, []c18Severity{91, 58, 32}, c18Manifest("a: 1\n"), c18Text("a: 1"), c18Text("plain"),
 		net.ParseIP("10.0.0.1"), map[string]any{"levels": []c18Severity{4, 5}, "name": c18Text("x")}, []string{"a", "b"}, [3]int{1, 2, 3},
 	}
